@@ -647,10 +647,6 @@ pub fn run(input: &Value) -> Case {
         if let Some(o) = j.as_object_mut() {
             o.remove("known_class");
         }
-        let all_mask8 = !rs.is_empty() && rs.iter().all(|r| r["t"] == "xterm" && u(&r["mods"]) >= 8);
-        if all_mask8 {
-            j["known_class"] = json!(["key-mask-ge-8"]);
-        }
         // SGR events / face reports with an inexpressible parameter (7, 27, 39, 49 as a parameter of its own)
         let inexpr = rs.iter().any(|r| {
             matches!(r["t"].as_str(), Some("sgr") | Some("facerep"))
@@ -796,7 +792,7 @@ fn g_sgr(rng: &mut Rng) -> String {
 fn g_report(rng: &mut Rng) -> Value {
     match rng.below(20) {
         18 | 19 => {
-            // a key in the xterm PC-style / VT220-style encoding, masks 0..7
+            // a key in the xterm PC-style / VT220-style encoding, any of the 256 modifier masks
             loop {
                 let k = match rng.below(4) {
                     0 => json!([*rng.pick(&[6u64, 7, 8, 9, 10, 11, 12, 13, 14, 15]), 0]),
@@ -804,7 +800,8 @@ fn g_report(rng: &mut Rng) -> Value {
                     2 => json!([5, 32 + rng.below(95)]),
                     _ => json!([3, 0]),
                 };
-                let (mods, alt) = (rng.below(8), rng.chance(1, 2));
+                let mods = if rng.chance(1, 2) { rng.below(8) } else { rng.below(256) };
+                let alt = rng.chance(1, 2);
                 if let Some(w) = xterm_seq(&k, mods, alt) {
                     // not the bare ESC-prefixes
                     if !(w.len() <= 2 && w[0] == 27 && (w.len() == 1 || matches!(w[1], b'O' | b'P' | b'[' | b']' | b'_'))) {
@@ -970,18 +967,32 @@ pub fn generate(rng: &mut Rng, n: usize, tier: &str) -> Vec<Value> {
             }
         }
     }
-    // 1c. the same encoding with modifier masks >= 8 (xterm meta, kitty super/hyper/meta/caps/num lock):
-    //     known finding C04-key-mask (the library's table stops at 7); alone, so nothing else hides behind the tag
+    // 1c. the same encoding with modifier masks >= 8 (xterm meta, kitty super/hyper/meta/caps/num lock): the parsed
+    //     ModifiedKeyMatcher (crate fix 8f4107f, former known finding C04-key-mask), alone and followed by a key
     for k in &xkeys {
         if u(&k[0]) == 5 || u(&k[0]) == 3 {
             continue;
         }
         for mods in [8u64, 9, 15, 16, 32, 64, 128, 129, 255] {
             for alt in [false, true] {
-                if xterm_seq(k, mods, alt).is_some() && (mods == 8 || mods == 128 || (u(&k[1]) + mods) % 3 == 0) {
+                if xterm_seq(k, mods, alt).is_some() {
                     v.push(json!({"reports": [{"t": "xterm", "k": k, "mods": mods, "alt": alt}], "cuts": []}));
+                    v.push(json!({"reports": [{"t": "xterm", "k": k, "mods": mods, "alt": alt}, {"t": "xterm", "k": k, "mods": 255 - mods, "alt": !alt}, {"t": "char", "c": 65}],
+                                  "cuts": [3, 2, 1]}));
                 }
             }
+        }
+    }
+    // 1d. the matcher outside the printer's image (model agreement only): every code 0..30 and every final byte it
+    //     accepts, parameter 0 / 1 / 256 / 257, leading zeros, a third parameter's place, the neighbours of the finals
+    for code in 0..=30u64 {
+        for p in ["5", "1", "0", "256", "257", "05"] {
+            v.push(json!({"bytes": format!("\x1b[{};{}~x", code, p).into_bytes(), "cuts": []}));
+        }
+    }
+    for f in b"ABCDEFGHIJPQRSTZ" {
+        for (code, p) in [("1", "5"), ("1", "9"), ("1", "256"), ("1", "257"), ("1", "0"), ("01", "009"), ("2", "5"), ("", "5"), ("1", "")] {
+            v.push(json!({"bytes": format!("\x1b[{};{}{}x", code, p, *f as char).into_bytes(), "cuts": []}));
         }
     }
     // 2. every DEC mode x every status: the documented ones plus whatever else from_usize accepts
